@@ -46,6 +46,16 @@ def final_step(repo):
             "__getitem__: expected exactly one replacing_for_path(<item.path.keys>, item.value) call, found %d" % len(hits))
     stmt = par[hits[0]]
     text = " ".join(ast.get_source_segment(src, stmt).split())
+    # the statement must be executed unconditionally, once, after the loop over the float paths:
+    # a direct child of the function body, located after the try statement that contains the for loop
+    if stmt not in fn.body:
+        raise T.TranslationError("__getitem__: the final replacement is nested inside another statement: %s" % text)
+    tries = [n for n in fn.body if isinstance(n, ast.Try) and any(isinstance(m, ast.For) for m in ast.walk(n))]
+    if len(tries) != 1 or fn.body.index(stmt) < fn.body.index(tries[0]):
+        raise T.TranslationError("__getitem__: the final replacement does not follow the try/for that interpolates the leaves")
+    between = fn.body[fn.body.index(stmt) + 1:]
+    if any(not isinstance(n, ast.Return) for n in between):
+        raise T.TranslationError("__getitem__: statements other than `return` follow the final replacement")
     rets = T.returns(fn)
     last_ret = rets[-1] if rets else None
     if isinstance(stmt, ast.Expr):
@@ -61,12 +71,36 @@ def final_step(repo):
     raise T.TranslationError("__getitem__: unsupported statement form around the final replacement: %s" % text)
 
 
+SPLINE = "autofit/interpolator/spline.py"
+
+
+def spline_return(repo):
+    """Does SplineInterpolator._interpolate return a Python float (`float(f(value))` / `f(value).item()`) or the
+    0-d array that calling a scipy spline yields (`f(value)`)?  Returns (is_float, source text, line)."""
+    tree, src = T.parse_file(repo, SPLINE)
+    fn = T.find_function(tree, "SplineInterpolator._interpolate")
+    rets = T.returns(fn)
+    if len(rets) != 1:
+        raise T.TranslationError("SplineInterpolator._interpolate: expected one return statement, found %d" % len(rets))
+    e = rets[0].value
+    text = " ".join(ast.get_source_segment(src, e).split())
+    if isinstance(e, ast.Call) and isinstance(e.func, ast.Name) and e.func.id == "float" and len(e.args) == 1:
+        return True, text, e.lineno
+    if isinstance(e, ast.Call) and isinstance(e.func, ast.Attribute) and e.func.attr == "item" and not e.args:
+        return True, text, e.lineno
+    if isinstance(e, ast.Call) and isinstance(e.func, ast.Name) and len(e.args) == 1 and not e.keywords \
+            and isinstance(e.args[0], ast.Name):
+        return False, text, e.lineno
+    raise T.TranslationError("SplineInterpolator._interpolate: unsupported return expression: %s" % text)
+
+
 def regenerate(repo=None):
     repo = repo or common.REPO
     info = T.translate_spec(repo, SPEC_LI, {})
     if info["defs"].get("Q") is None:
         raise T.TranslationError("li_eval has no exact-rational flavour")
     kept, text, line = final_step(repo)
+    spl_float, spl_text, spl_line = spline_return(repo)
     lines = [
         "(* GENERATED by harness/vcheck/c20.py from %s -- do not edit. *)" % repo,
         "(* C20: leaf formula of LinearInterpolator._interpolate; statement form of the last step of __getitem__ *)",
@@ -83,6 +117,10 @@ def regenerate(repo=None):
             "yes" if kept else "no (bare expression statement)"),
         "Definition assigns_final : bool := %s." % ("true" if kept else "false"),
         "",
+        "(* %s:SplineInterpolator._interpolate line %d\n     return %s\n   a Python float: %s *)" % (
+            SPLINE, spl_line, spl_text, "yes" if spl_float else "no (the 0-d numpy array scipy returns)"),
+        "Definition spline_returns_float : bool := %s." % ("true" if spl_float else "false"),
+        "",
     ]
     out = "\n".join(lines)
     outfile = os.path.join(common.COQ, "C20", "Gen.v")
@@ -93,6 +131,7 @@ def regenerate(repo=None):
     return {
         "li_eval": {"source": info["source"], "line": info["line"]},
         "assigns_final": {"source": text, "line": line, "value": kept},
+        "spline_returns_float": {"source": spl_text, "line": spl_line, "value": spl_float},
     }
 
 
@@ -113,6 +152,8 @@ def num_of(t):
         return None
     if "f" in t:
         return unhex(t["f"])
+    if "a" in t:
+        return unhex(t["a"])
     if "i" in t:
         return int(t["i"])
     return None
@@ -148,6 +189,9 @@ def walk(t, tuples=False, private=False, pre=()):
     elif "l" in t:
         for i, c in enumerate(t["l"]):
             out += walk(c, tuples, private, pre + (i,))
+    elif "d" in t and tuples:
+        for k, c in t["d"]:
+            out += walk(c, tuples, private, pre + (("D", k),))
     elif "t" in t and tuples:
         for i, c in enumerate(t["t"]):
             out += walk(c, tuples, private, pre + (("T", i),))
@@ -159,7 +203,10 @@ def t_get_any(t, path):
     for k in path:
         if t is None:
             return None
-        if isinstance(k, tuple):
+        if isinstance(k, tuple) and k[0] == "D":
+            hit = [c for kk, c in t.get("d", []) if kk == k[1]]
+            t = hit[0] if hit else None
+        elif isinstance(k, tuple):
             if "t" not in t or k[1] >= len(t["t"]):
                 return None
             t = t["t"][k[1]]
@@ -172,10 +219,14 @@ def skeleton(t):
     """shape and leaf kinds, float values erased"""
     if "f" in t:
         return "F"
+    if "a" in t:
+        return "A"
     if "i" in t:
         return "I"
     if "x" in t:
         return ("X", t["x"])
+    if "d" in t:
+        return ("D", tuple((k, skeleton(c)) for k, c in t["d"]))
     if "o" in t:
         return ("O", tuple((k, skeleton(c)) for k, c in t["o"]))
     if "l" in t:
@@ -187,10 +238,14 @@ def nonfloat_part(t):
     """the tree with float values erased but every other leaf kept"""
     if "f" in t:
         return "F"
+    if "a" in t:
+        return ("A", t["a"])
     if "i" in t:
         return ("I", t["i"])
     if "x" in t:
         return ("X", t["x"])
+    if "d" in t:
+        return ("D", tuple((k, nonfloat_part(c)) for k, c in t["d"]))
     if "o" in t:
         return ("O", tuple((k, nonfloat_part(c)) for k, c in t["o"]))
     if "l" in t:
@@ -199,12 +254,22 @@ def nonfloat_part(t):
 
 
 def has_tuple_float(t):
-    return len(walk(t, tuples=True)) != len(walk(t))
+    return any(isinstance(k, tuple) and k[0] == "T" for p in walk(t, tuples=True) for k in p)
+
+
+def has_dict_float(t):
+    return any(isinstance(k, tuple) and k[0] == "D" for p in walk(t, tuples=True) for k in p)
+
+
+def has_dict(t):
+    if "d" in t:
+        return True
+    return any(has_dict(c) for c in ([c for _, c in t["o"]] if "o" in t else t.get("l", t.get("t", []))))
 
 
 def depth(t):
-    if "o" in t:
-        return 1 + max([depth(c) for _, c in t["o"]] + [0])
+    if "o" in t or "d" in t:
+        return 1 + max([depth(c) for _, c in t.get("o", t.get("d"))] + [0])
     if "l" in t or "t" in t:
         return 1 + max([depth(c) for c in t.get("l", t.get("t"))] + [0])
     return 0
@@ -303,6 +368,8 @@ def gen_shape(rng, d, opts):
         if opts.get("private") and rng.random() < 0.5:
             fields.insert(rng.randint(0, len(fields)), ("_cache%d" % rng.randint(0, 3), gen_slot(rng)))
         return {"k": "O", "cls": rng.choice(["obj", "obj", "mi"]), "fields": fields}
+    if opts.get("dicts") and r < 0.80:
+        return {"k": "D", "fields": [(nm, gen_slot(rng)) for nm in rng.sample(["a", "b", "amp", "phi"], rng.randint(1, 2))]}
     if r < 0.88 or not opts.get("tuples"):
         return {"k": "L", "items": [gen_shape(rng, d - 1, opts) for _ in range(rng.randint(0, 3))]}
     return {"k": "T", "items": [gen_slot(rng) for _ in range(rng.randint(1, 3))]}
@@ -314,13 +381,16 @@ def instantiate(shape, t, rng_vals, where=()):
         m = shape["mode"]
         tt = float(t)
         if m == "lin":
-            return F(shape["a"] * tt + shape["b"])
+            # the exact line, rounded once (identical to a*t+b in floats for dyadic t)
+            return F(float(Fraction(shape["a"]) * Fraction(tt) + Fraction(shape["b"])))
         if m == "quad":
             return F(shape["a"] * tt * tt + shape["b"] * tt + shape["c"])
         if m == "const":
             return F(shape["c"])
         if m == "var":
             return {"i": int(t)} if isinstance(t, int) else F(t)
+        if m == "var2":
+            return F(shape["a"] * tt + shape["b"])
         return F(rng_vals.uniform(-1, 1) * shape["scale"])
     if k == "I":
         return {"i": shape["val"]}
@@ -328,6 +398,8 @@ def instantiate(shape, t, rng_vals, where=()):
         return {"x": shape["tok"]}
     if k == "O":
         return {"o": [[nm, instantiate(c, t, rng_vals, where + (nm,))] for nm, c in shape["fields"]], "cls": shape["cls"]}
+    if k == "D":
+        return {"d": [[nm, instantiate(c, t, rng_vals, where + (nm,))] for nm, c in shape["fields"]]}
     if k == "L":
         return {"l": [instantiate(c, t, rng_vals, where + (i,)) for i, c in enumerate(shape["items"])]}
     return {"t": [instantiate(c, t, rng_vals, where + (i,)) for i, c in enumerate(shape["items"])]}
@@ -370,7 +442,7 @@ def gen_abscissae(rng, n, kind):
 
 
 def gen_series(rng, thorough):
-    opts = {"tuples": rng.random() < 0.12, "private": rng.random() < 0.15}
+    opts = {"tuples": rng.random() < 0.12, "private": rng.random() < 0.15, "dicts": rng.random() < 0.06}
     n = rng.choice([2, 2, 3, 3, 3, 4, 4, 5, 6, 7] + ([8, 9] if thorough else []))
     akind = rng.choice(["dyadic"] * 10 + ["arbitrary"] * 4 + ["int"] * 2 + ["mixed"] * 2 + ["dup"] * 1 + ["negzero"] * 1)
     var = rng.choice(VAR_NAMES)
@@ -404,13 +476,51 @@ def gen_series(rng, thorough):
             nested_var = False
     if not nested_var:
         fields.insert(rng.randint(0, len(fields)), (var, {"k": "F", "mode": "var"}))
+    # a second attribute that can serve as interpolation variable (affine in the first, so also distinct):
+    # the same interpolator object is asked about both, interleaved
+    var2 = None
+    if rng.random() < 0.6:
+        var2 = rng.choice([v for v in VAR_NAMES + ["u", "phase"] if v != var and v not in dict(root["fields"])])
+        root["fields"].insert(rng.randint(0, len(root["fields"])),
+                              (var2, {"k": "F", "mode": "var2", "a": rng.choice([-2.0, -0.5, 0.5, 1.0, 3.0]), "b": dy(rng)}))
     ts = gen_abscissae(rng, n, akind)
     insts = [instantiate(root, t, rng) for t in ts]
-    feats = {"abscissa": akind, "n": n, "nested_var": nested_var}
+    feats = {"abscissa": akind, "n": n, "nested_var": nested_var, "second_variable": var2 is not None}
+    feats["lin_slots"] = {json.dumps(list(p)): [sl["a"], sl["b"]] for p, sl in lin_slots(root)}
+    if var2 is not None:
+        sl = dict(root["fields"])[var2]
+        feats["var2"] = [var2, sl["a"], sl["b"]]
+    feats["primary"] = list(qpath)
     if via_collection:
         feats["via"] = "collection"
         for t in insts:
             t["via"] = "collection"
+        if rng.random() < 0.5:
+            feats["frozen"] = True            # frozen instances answer the walk from their cache
+    else:
+        r0 = rng.random()
+        if r0 < 0.08:
+            # one component object held at two attributes of every instance (a is b)
+            cands = [k for k, c in insts[0]["o"] if "o" in c and [k] != qpath[:1]]
+            if cands:
+                src = rng.choice(cands)
+                for t in insts:
+                    import copy as _copy
+                    t["o"].append([src + "_again", _copy.deepcopy(dict((k, c) for k, c in t["o"])[src])])
+                feats["alias"] = [[src], [src + "_again"]]
+                feats["lin_slots"].update({json.dumps([src + "_again"] + json.loads(k)[1:]): v
+                                           for k, v in list(feats["lin_slots"].items()) if json.loads(k)[:1] == [src]})
+        elif r0 < 0.18:
+            feats["npfloat"] = True            # numpy.float64 leaves and query values
+        elif r0 < 0.25:
+            # every parameter is a 0-d array, as in instances returned by SplineInterpolator: not floats for the walk
+            keep = [tuple(qpath)] + ([(var2,)] if var2 is not None else [])
+            for t in insts:
+                for p in walk(t, private=True):
+                    if p not in keep:
+                        leaf = t_get(t, p)
+                        leaf["a"] = leaf.pop("f")
+            feats["array_leaves"] = True
     # rare structural irregularities
     r = rng.random() if not via_collection else 1.0
     if r < 0.05:
@@ -424,7 +534,15 @@ def gen_series(rng, thorough):
             leaf.clear()
             leaf.update({"i": int(round(v))})
             feats["irregular"] = "int-among-floats"
-    elif r < 0.09:
+    elif r < 0.07 and not feats.get("array_leaves"):
+        # one instance holds a 0-d array where the others hold a float
+        cands = [p for p in walk(insts[0]) if list(p) != qpath and (var2 is None or p != (var2,))]
+        if cands:
+            p = rng.choice(cands)
+            leaf = t_get(insts[rng.randrange(n)], p)
+            leaf["a"] = leaf.pop("f")
+            feats["irregular"] = "array-among-floats"
+    elif r < 0.11:
         # one instance lacks an attribute the others have
         j = rng.randrange(n)
         objs = [c for _, c in insts[j]["o"] if "o" in c and len(c["o"]) > 1 and c.get("cls") != "gauss"]
@@ -443,39 +561,70 @@ def gen_series(rng, thorough):
     by_t = sorted(range(n), key=lambda i: (float(ts[i]), i))
     if by_t not in perms and rng.random() < 0.5:
         perms.append(by_t)
-    for _ in range(rng.randint(0, 2)):
+    if rng.random() < 0.6:
         p = list(range(n))
         rng.shuffle(p)
         if p not in perms:
             perms.append(p)
-    # query values
+    perms = perms[:1] + rng.sample(perms[1:], min(len(perms) - 1, 2))     # at most three orders
+    # query values, per interpolation variable
+    plan = [(qpath, kind, qv) for kind, qv in gen_qvals(rng, ts, full=True)]
+    if var2 is not None:
+        us = [num_of(t_get(t, (var2,))) for t in insts]
+        plan += [([var2], kind, qv) for kind, qv in gen_qvals(rng, us, full=False)]
+    queries = []
+    for perm in perms:
+        order = list(plan)
+        rng.shuffle(order)                      # the two variables interleave on one interpolator
+        if rng.random() < 0.5:
+            order.append(rng.choice(order))     # and one query is asked a second time
+        for path, kind, qv in order:
+            for method in ("linear", "spline"):
+                queries.append({"perm": perm, "method": method, "path": list(path), "qkind": kind,
+                                "value": {"i": qv} if isinstance(qv, int) else F(qv)})
+    return {"kind": "series", "insts": insts, "queries": queries, "feats": feats}
+
+
+def gen_qvals(rng, ts, full):
     fs = sorted(float(t) for t in ts)
     lo, hi = fs[0], fs[-1]
     qvals = []
     node = rng.choice(ts)
     qvals.append(("node", float(node) if rng.random() < 0.7 else node))
-    if float(node).is_integer() and rng.random() < 0.3:
+    if full and float(node).is_integer() and rng.random() < 0.3:
         qvals.append(("node-int", int(float(node))))
-    for _ in range(rng.randint(1, 2)):
+    for _ in range(rng.randint(1, 2) if full else 1):
         i = rng.randrange(len(fs) - 1)
         a, b = fs[i], fs[i + 1]
         if a == b:
             a, b = lo, hi
         qvals.append(("inside", (a + b) / 2 if rng.random() < 0.5 else a + (b - a) * rng.random()))
     span = (hi - lo) or 1.0
-    qvals.append(("outside", hi + rng.choice([0.25, 1.0, 3.5]) * span if rng.random() < 0.5 else lo - rng.choice([0.25, 1.0, 3.5]) * span))
-    if rng.random() < 0.4:
+    if full or rng.random() < 0.5:
+        qvals.append(("outside", hi + rng.choice([0.25, 1.0, 3.5]) * span if rng.random() < 0.5 else lo - rng.choice([0.25, 1.0, 3.5]) * span))
+    if full and rng.random() < 0.4:
         qvals.append(("near-node", math.nextafter(float(node), math.inf if rng.random() < 0.5 else -math.inf)))
-    if rng.random() < 0.2:
-        k = int(math.floor((lo + hi) / 2))
-        qvals.append(("int-query", k))
-    queries = []
-    for perm in perms:
-        for kind, qv in qvals:
-            for method in ("linear", "spline"):
-                queries.append({"perm": perm, "method": method, "path": qpath, "qkind": kind,
-                                "value": {"i": qv} if isinstance(qv, int) else F(qv)})
-    return {"kind": "series", "insts": insts, "queries": queries, "feats": feats}
+    if full and rng.random() < 0.2:
+        qvals.append(("int-query", int(math.floor((lo + hi) / 2))))
+    if full and rng.random() < 0.06:
+        qvals.append(("inf-query", rng.choice([math.inf, -math.inf])))
+    if full and rng.random() < 0.04:
+        qvals.append(("nan-query", math.nan))
+    return qvals
+
+
+def lin_slots(shape, pre=()):
+    k = shape["k"]
+    if k == "F":
+        return [(pre, shape)] if shape["mode"] == "lin" else []
+    out = []
+    if k in ("O", "D"):
+        for nm, c in shape["fields"]:
+            out += lin_slots(c, pre + (nm,))
+    elif k in ("L", "T"):
+        for i, c in enumerate(shape["items"]):
+            out += lin_slots(c, pre + (i,))
+    return out
 
 
 def shape_float_paths(shape, pre=()):
@@ -515,7 +664,7 @@ def gen_cases(ctx):
         for f in sorted(os.listdir(cdir)):
             if f.endswith(".json"):
                 cases.append(json.load(open(os.path.join(cdir, f))))
-    for _ in range(110 if not thorough else 600):
+    for _ in range(90 if not thorough else 450):
         cases.append(gen_series(rng, thorough))
     for _ in range(60 if not thorough else 300):
         cases.append(gen_linreg(rng))
@@ -538,6 +687,37 @@ def series_info(s, perm, qpath):
     return insts, keys, uniform, distinct
 
 
+def plain(p):
+    return [k[1] if isinstance(k, tuple) else k for k in p]
+
+
+def slot_line(s, p, qpath):
+    """(a, b) with leaf(p) = a*x + b exactly (before the single rounding of the data), x the abscissa at qpath,
+    when the generator made the leaf linear; else None"""
+    feats = s.get("feats", {})
+    ab = feats.get("lin_slots", {}).get(json.dumps(plain(p)))
+    if ab is None:
+        return None
+    a, b = Fraction(ab[0]), Fraction(ab[1])
+    if list(qpath) == feats.get("primary"):
+        return a, b
+    v2 = feats.get("var2")
+    if v2 and list(qpath) == [v2[0]]:
+        a2, b2 = Fraction(v2[1]), Fraction(v2[2])      # u = a2*t + b2
+        return a / a2, b - a * b2 / a2
+    return None
+
+
+def finite(x):
+    return x is not None and not (isinstance(x, float) and (math.isnan(x) or math.isinf(x)))
+
+
+def in_quantifier(s, q):
+    qpath = tuple(q["path"])
+    insts, keys, uniform, distinct = series_info(s, q["perm"], qpath)
+    return bool(uniform and distinct and len(insts) >= 2 and finite(num_of(q["value"])) and all(finite(k) for k in keys))
+
+
 def oracle_query(s, q, r):
     """Returns a list of (message, classes).  Empty = the property holds on this query."""
     fails = []
@@ -548,14 +728,18 @@ def oracle_query(s, q, r):
         fails.append(("input instances were modified by the query (instances %s)" % r.get("changed"), []))
     if not r.get("list_unchanged", True):
         fails.append(("the list of instances held by the interpolator was changed", []))
-    if not (uniform and distinct and len(insts) >= 2):
-        # outside the quantifier of the property (instances of different shape / repeated abscissa):
-        # only the known-point clause for repeated abscissae is checked here
+    if r["kind"] == "new" and r.get("shares_mutable_with_inputs"):
+        fails.append(("the returned instance shares a mutable object with the input instances", []))
+    if not in_quantifier(s, q):
+        # outside the quantifier of the property (instances of different shape / repeated abscissa / non-finite
+        # numbers): only the known-point clause for repeated abscissae is checked here
         if uniform and None not in keys and v in keys and r["kind"] == "same" and keys[r["index"]] != v:
             fails.append(("returned instance does not have the requested abscissa", []))
         return fails
+    template = insts[0]
     if r["kind"] == "exc":
-        fails.append(("query raised %s: %s" % (r["exc"], r.get("msg")), ["raised"]))
+        cls = ["float-inside-dict"] if has_dict_float(template) and v not in keys else []
+        fails.append(("query raised %s: %s" % (r["exc"], r.get("msg")), cls))
         return fails
     if v in keys:
         want = keys.index(v)
@@ -568,7 +752,6 @@ def oracle_query(s, q, r):
         fails.append(("query at an unknown point returned input instance %s" % r.get("index"), []))
         return fails
     res = r["tree"]
-    template = insts[0]
     # shape and every non-float leaf as in the series (all instances agree on those when they agree with each other)
     agree_nonfloat = len({json.dumps(nonfloat_part(t), default=str) for t in insts}) == 1
     # the interpolation variable
@@ -577,41 +760,45 @@ def oracle_query(s, q, r):
         typ = "int" if "i" in (t_get(template, qpath) or {}) else "float"
         fails.append(("interpolation variable is %r, requested %r" % (got, v),
                       ["variable-not-assigned", "variable-not-assigned:" + typ]))
-    # every float parameter is the interpolant
+    # every float parameter is the interpolant -- and a float
     order = sorted(range(len(keys)), key=lambda i: keys[i])
     xs = [float(keys[i]) for i in order]
     table = {tuple(req["path"]): o for req, o in zip(q["requests"], r["oracle"])}
+    arrays = []
     for p in walk(template, tuples=True):
         if p == qpath:
             continue
         ys = [unhex(t_get_any(insts[i], p)["f"]) for i in order]
         leaf = t_get_any(res, p)
-        in_tuple = any(isinstance(k, tuple) for k in p)
+        in_tuple = any(isinstance(k, tuple) and k[0] == "T" for k in p)
         cls = ["float-inside-tuple"] if in_tuple else []
+        if in_tuple and leaf != t_get_any(template, p):
+            # the recorded finding is "tuples are carried over from the first instance": anything else is new
+            fails.append(("tuple leaf %s of the result is %r, neither interpolated nor the first instance's %r"
+                          % (plain(p), leaf, t_get_any(template, p)), []))
+        if leaf is not None and "a" in leaf:
+            arrays.append(plain(p))
+            leaf = {"f": leaf["a"]}
         if leaf is None or "f" not in leaf:
-            fails.append(("float parameter %s is missing from the result" % (list(p),), cls))
+            fails.append(("float parameter %s is missing from the result" % (plain(p),), cls))
             continue
         gotv = unhex(leaf["f"])
         scale = max(abs(y) for y in ys)
         # slope*v + intercept cancels when |slope*v| >> |result|: absolute error ~ eps*scale*(|v|+|x|)/gap
         gap = min(b_ - a_ for a_, b_ in zip(xs, xs[1:]))
-        lin_scale = max(scale, 1e-5 * scale * (abs(float(v)) + max(abs(x) for x in xs)) / gap)
+        lin_scale = max(scale, 1e-8 * scale * (abs(float(v)) + max(abs(x) for x in xs)) / gap)
         if q["method"] == "linear":
             exact = lsq_exact(xs, ys, float(v))
             if exact is None or not close(gotv, float(exact), lin_scale):
-                fails.append(("parameter %s = %r is not the least-squares line at %r (%r)" % (list(p), gotv, v, float(exact) if exact is not None else None), cls))
-        else:
-            want = None
-            if in_tuple:
-                # no oracle request exists for leaves the walk does not reach; use the linear-data clause only
-                pass
-            else:
-                o = table.get(tuple(p if not isinstance(p, tuple) else p))
-                want = unhex(o["spl"]) if o and o.get("spl") is not None else None
-                if want is None or gotv.hex() != want.hex():
-                    fails.append(("parameter %s = %r is not CubicSpline(x, y)(%r) = %r" % (list(p), gotv, v, want), cls))
-        # exact on linear data
-        lin = linear_coeffs(xs, ys)
+                fails.append(("parameter %s = %r is not the least-squares line at %r (%r)" % (plain(p), gotv, v, float(exact) if exact is not None else None), cls))
+        elif not in_tuple:
+            # (no oracle request exists for leaves the walk does not reach: the linear-data clause only)
+            o = table.get(tuple(p))
+            want = unhex(o["spl"]) if o and o.get("spl") is not None else None
+            if want is None or gotv.hex() != want.hex():
+                fails.append(("parameter %s = %r is not CubicSpline(x, y)(%r) = %r" % (plain(p), gotv, v, want), cls))
+        # exact on linear data: exactly linear data, or data the generator made linear and rounded once
+        lin = linear_coeffs(xs, ys) or slot_line(s, p, qpath)
         if lin is not None:
             a, b = lin
             want_lin = float(a * Fraction(float(v)) + b)
@@ -622,10 +809,13 @@ def oracle_query(s, q, r):
                 cond = (max(abs(float(v) - x) for x in xs) / gap) ** 3
                 tol_scale = max(scale, 1e-4 * cond * max(scale, abs(want_lin), 1.0))
             if not close(gotv, want_lin, tol_scale):
-                fails.append(("data of %s are linear (%s*t+%s) but the result %r is not on the line at %r" % (list(p), a, b, gotv, v), cls))
+                fails.append(("data of %s are linear (%s*t+%s) but the result %r is not on the line at %r" % (plain(p), a, b, gotv, v), cls))
+    if arrays:
+        fails.append(("interpolated parameters %s of the result are 0-d numpy arrays, not floats" % (arrays[:4],),
+                      ["spline-result-is-array"] if q["method"] == "spline" else []))
     # shape and non-float attributes are those common to the series (the variable is judged above:
     # it may legitimately change between int and float)
-    if agree_nonfloat and not same_but_variable(res, template, qpath):
+    if agree_nonfloat and not arrays and not same_but_variable(res, template, qpath):
         fails.append(("result differs from the series in shape or in a non-float attribute", []))
     return fails
 
@@ -660,19 +850,22 @@ def oracle_order(s, qs, rs):
     fails = []
     groups = {}
     for qi, (q, r) in enumerate(zip(qs, rs)):
-        groups.setdefault((q["method"], json.dumps(q["value"], sort_keys=True)), []).append(qi)
+        groups.setdefault((q["method"], json.dumps(q["path"]), json.dumps(q["value"], sort_keys=True)), []).append(qi)
     for key, idxs in groups.items():
         base = None
         for qi in idxs:
             q, r = qs[qi], rs[qi]
             qpath = tuple(q["path"])
             insts, keys, uniform, distinct = series_info(s, q["perm"], qpath)
-            if not (uniform and distinct):
+            if not in_quantifier(s, q):
                 continue
             if r["kind"] == "same":
                 obs = ("same", q["perm"][r["index"]])
             elif r["kind"] == "new":
-                obs = ("new", tuple((p, (t_get_any(r["tree"], p) or {}).get("f")) for p in walk(insts[0], tuples=True) if p != qpath))
+                def val(leaf):
+                    leaf = leaf or {}
+                    return leaf.get("f", leaf.get("a"))
+                obs = ("new", tuple((p, val(t_get_any(r["tree"], p))) for p in walk(insts[0], tuples=True) if p != qpath))
             else:
                 obs = ("exc",)
             if base is None:
@@ -681,7 +874,7 @@ def oracle_order(s, qs, rs):
                 cls = []
                 if obs[0] == "new" and base[1][0] == "new":
                     diff = [p for (p, a), (_, b) in zip(obs[1], base[1][1]) if a != b]
-                    if diff and all(any(isinstance(k, tuple) for k in p) for p in diff):
+                    if diff and all(any(isinstance(k, tuple) and k[0] == "T" for k in p) for p in diff):
                         cls = ["float-inside-tuple"]
                 fails.append((qi, "result depends on the order of the series (orders %s and %s)" % (qs[base[0]]["perm"], q["perm"]), cls))
     return fails
@@ -693,6 +886,8 @@ def oracle_order(s, qs, rs):
 def ctree(t):
     if "f" in t:
         return "TF %s" % cfloat(unhex(t["f"]))
+    if "a" in t:
+        return "TA %s" % cfloat(unhex(t["a"]))
     if "i" in t:
         return "TI %s" % cZ(t["i"])
     if "x" in t:
@@ -735,9 +930,10 @@ def ccase(c, r):
                     spl.setdefault((tuple(req["xs"]), tuple(req["ys"]), req["v"]), o["spl"])
             out = coutcome(rq)
             idx = outs.setdefault(out, len(outs))
-            qs.append("(Query %s %s %s (%s) %s)" % (
+            qs.append("(Query %s %s %s (%s) %s %s)" % (
                 clist([cnat(i) for i in q["perm"]]), "Linear" if q["method"] == "linear" else "Spline",
-                clist([cstr(k) for k in q["path"]]), ctree(q["value"]), cnat(idx)))
+                clist([cstr(k) for k in q["path"]]), ctree(q["value"]), cnat(idx),
+                "true" if in_quantifier(c, q) else "false"))
         lt = clist(["(%s, %s, (%s, %s))" % (cfl(k[0]), cfl(k[1]), cfloat(unhex(v[0])), cfloat(unhex(v[1]))) for k, v in lin.items()])
         st = clist(["(%s, %s, %s, %s)" % (cfl(k[0]), cfl(k[1]), cfloat(unhex(k[2])), cfloat(unhex(v))) for k, v in spl.items()])
         return "CSeries %s\n %s\n %s\n %s\n %s" % (clist(["(%s)" % ctree(t) for t in c["insts"]]), lt, st,
@@ -770,7 +966,7 @@ def attach_requests(c):
 def query_nontrivial(s, q, r):
     qpath = tuple(q["path"])
     insts, keys, uniform, distinct = series_info(s, q["perm"], qpath)
-    if not (uniform and distinct):
+    if not in_quantifier(s, q):
         return False
     fk = [float(k) for k in keys]
     if r["kind"] == "same":
@@ -824,7 +1020,7 @@ def run(ctx):
     for c in cases:
         if c["kind"] == "series":
             attach_requests(c)
-    nchunk = max(1, min(common.NCPU, len(cases) // 8 or 1))
+    nchunk = max(1, min(16, len(cases) // 8 or 1))     # fixed, so that case order does not depend on the machine
     chunks = [cases[i::nchunk] for i in range(nchunk)]
     outs = common.run_impl_parallel("c20_impl", [{"cases": ch} for ch in chunks], timeout=1500)
     results = [None] * len(cases)
@@ -864,6 +1060,8 @@ def run(ctx):
         ctx.hist("float_leaves", min(len(walk(c["insts"][0])), 12))
         ctx.hist("irregular", feats.get("irregular", "none"))
         ctx.hist("built_via", feats.get("via", "ModelInstance(dict)"))
+        ctx.hist("special", ",".join(k for k in ("alias", "npfloat", "array_leaves", "frozen", "second_variable") if feats.get(k)) or "none")
+        ctx.hist("dict_floats", has_dict_float(c["insts"][0]))
         ctx.hist("tuple_floats", has_tuple_float(c["insts"][0]))
         ctx.hist("orders", len({tuple(q["perm"]) for q in c["queries"]}))
         if not all(r["abs_ok"]):
@@ -884,6 +1082,9 @@ def run(ctx):
             ctx.sample({"insts": c["insts"][:2], "n_instances": len(c["insts"]), "feats": feats,
                         "query": {k: v for k, v in c["queries"][-1].items() if k != "requests"},
                         "returned": r["queries"][-1]["kind"]}, limit=6)
+        if any(has_dict(t) for t in c["insts"]):
+            ctx.hist("correspondence", "oracle-only (dict attribute: not expressible in the tree model)")
+            continue
         coq_cases.append(ccase(c, r))
         coq_idx.append(i)
     # 4. correspondence inside Coq
